@@ -163,11 +163,10 @@ flags" (`SUM(({{1}}))`, `SUM((MAX({SUM({1})})))` panicked in `parseToken`; repos
 theorem fixed_nested_array_constant_witness :
     nested [] 0 witnessNestedArray = true ∧ evalTokens semU witnessNestedArray = .ok () := by decide
 
-/-- what is left of the "no array constant" hypothesis after fix 9c11688: in the model only a
-list no tokenizer emits — an ARRAYROW start without an enclosing ARRAY start, which the
-evaluator ignores while the checker `nested` counts it as an opening bracket — still panics.
-(Enumerating the model over all `nested` lists of ≤ 6 tokens over an 11-token alphabet finds
-no other panic; the array-aware version of `eval_no_panic_functions` is not proved.) -/
+/-- what the "no array constant" hypothesis of `eval_no_panic_functions` still excluded after fix
+9c11688: an ARRAYROW start without an enclosing ARRAY start — the evaluator ignores it while the
+plain bracket checker `nested` counts it as an opening bracket.  (Superseded by `eval_no_panic`,
+whose array-aware discipline `nestedA` rejects exactly this shape.) -/
 theorem finding_model_arrayrow_without_array_panics :
     nested [] 0 [fstart "SUM", ⟨"", .subexpr, .start⟩, fstart "ARRAYROW", fstop, ⟨"", .subexpr, .stop⟩] = true ∧
     evalTokens semU [fstart "SUM", ⟨"", .subexpr, .start⟩, fstart "ARRAYROW", fstop, ⟨"", .subexpr, .stop⟩] = .panic := by
@@ -196,8 +195,15 @@ theorem nestedA_witnesses :
     nestedA [] [] witnessArraySep = true ∧ nestedA [] [] witnessArrayParenFn = true ∧
     nestedA [] [] witnessNestedArray = true := by decide
 
-/-- the discipline is necessary where it differs from plain bracket nesting: an ARRAYROW start
-without an enclosing array constant (never emitted by efp) is rejected by `nestedA` and panics -/
+/-- **Open finding (code and model agree).**  `nestedA` differs from plain bracket nesting in one
+rule: an ARRAYROW start must sit directly inside an array constant.  The rule is necessary — the
+list below violates it and panics — and, contrary to what was assumed until the harness checked
+the discipline on the efp tokens of every generated formula, efp DOES emit such lists: it writes
+an ARRAYROW start for every `;` and for a function literally named ARRAYROW, inside an array
+constant or not.  `SUM((ARRAYROW(1)))` (the list below) and `SUM((SUM(;1)))` panic on the real
+code: the evaluator ignores the ARRAYROW start but lets its Function Stop close the enclosing
+function.  Candidate two-line repair: when `array()` is nil, treat the ARRAYROW start as the
+start of an (unknown) function. -/
 theorem finding_model_arrayrow_without_array_rejected :
     nestedA [] [] [fstart "SUM", ⟨"", .subexpr, .start⟩, fstart "ARRAYROW", fstop, ⟨"", .subexpr, .stop⟩] = false ∧
     evalTokens semU [fstart "SUM", ⟨"", .subexpr, .start⟩, fstart "ARRAYROW", fstop, ⟨"", .subexpr, .stop⟩] = .panic := by
